@@ -799,6 +799,190 @@ func testPipeline(t *testing.T) {
 		}
 		rd.Finish("Calcium.Send (non-chunked path) on the same world: corpus of 12 (empty file, several files, missing / duplicated target, aborting engine, default permission, no files, no ids), then random: 1-3 files of 0-4500 bytes to 1-3 of 3 workloads, 50% all drain, 15% one missing, 10% duplicated, 15% aborting engine, 10% drain then error; non-trivial = at least one file and one target")
 	}
+	// ---- stream "clientchunks": the client of the streaming RPC cuts the file as it likes ----
+	{
+		rk := vh.New(t, "C29", "clientchunks")
+		rk.Coq("From Verif Require Import Xfer.Pipeline.", "Pipeline.kcase", "Pipeline.kagree", "Pipeline.kok")
+		runClient := func(kind string, lens []int, targets []int, beh []behaviour) {
+			size := 0
+			for _, n := range lens {
+				size += n
+			}
+			content := make([]byte, size)
+			for i := range content {
+				content[i] = byte((i*5 + 3) % 247)
+			}
+			file := types.LinuxFile{Content: content, Filename: "/data/client.bin", UID: 1001, GID: 1002, Mode: 0o640}
+			theHub.mu.Lock()
+			theHub.beh = map[string]behaviour{}
+			for i, b := range beh {
+				theHub.beh[wids[i]] = b
+			}
+			theHub.files = nil
+			theHub.content, theHub.want, theHub.recv = content, file, map[string]*received{}
+			theHub.mu.Unlock()
+			ids := make([]string, len(targets))
+			for i, o := range targets {
+				if o < 0 {
+					ids[i] = missing
+				} else {
+					ids[i] = wids[o]
+				}
+			}
+			ctx, cancel := context.WithCancel(w.Ctx)
+			dc := make(chan *types.SendLargeFileOptions)
+			resp := w.C.SendLargeFile(ctx, dc)
+			stop := make(chan struct{})
+			go func() {
+				defer close(dc)
+				off := 0
+				for _, n := range lens { // what rpc.SendLargeFile builds from each FileOptions message of the client
+					opts := &types.SendLargeFileOptions{IDs: ids, Dst: file.Filename, Size: int64(size), Mode: file.Mode, UID: file.UID, GID: file.GID, Chunk: content[off : off+n]}
+					off += n
+					select {
+					case dc <- opts:
+					case <-stop:
+						return
+					}
+				}
+			}()
+			var msgs []msgObs
+			finished := false
+			deadline := time.After(5 * time.Second)
+		loop:
+			for {
+				select {
+				case m, ok := <-resp:
+					if !ok {
+						finished = true
+						break loop
+					}
+					o := msgObs{Target: -1, Err: "ENone", PathOK: m.Path == file.Filename}
+					if x, ok := ord[m.ID]; ok {
+						o.Target = x
+					}
+					switch {
+					case m.Error == nil:
+					case errors.Is(m.Error, errEngine):
+						o.Err = "EEngine"
+					default:
+						o.Err = "EOther"
+					}
+					msgs = append(msgs, o)
+				case <-deadline:
+					break loop
+				}
+			}
+			if !finished {
+				close(stop)
+				go func() {
+					for range resp {
+					}
+				}()
+				time.Sleep(50 * time.Millisecond)
+			}
+			cancel()
+			sort.Slice(msgs, func(i, j int) bool {
+				if msgs[i].Target != msgs[j].Target {
+					return msgs[i].Target < msgs[j].Target
+				}
+				return msgs[i].Err < msgs[j].Err
+			})
+			theHub.mu.Lock()
+			recvs := make([]string, 3)
+			for i, id := range wids {
+				rec := theHub.recv[id]
+				switch {
+				case rec == nil:
+					recvs[i] = "RNone"
+				case rec.prefix:
+					recvs[i] = fmt.Sprintf("(RPrefix %d %s %d)", rec.n, vh.Bool(rec.metaOK), rec.calls)
+				default:
+					recvs[i] = fmt.Sprintf("(RGarbled %d %d)", rec.n, rec.calls)
+				}
+			}
+			theHub.mu.Unlock()
+			ms := make([]string, len(msgs))
+			for i, m := range msgs {
+				tg := "None"
+				if m.Target >= 0 {
+					tg = fmt.Sprintf("(Some %d)", m.Target)
+				}
+				ms[i] = fmt.Sprintf("(mkMsg %s %s %s)", tg, m.Err, vh.Bool(m.PathOK))
+			}
+			ls := make([]string, len(lens))
+			for i, n := range lens {
+				ls[i] = vh.Nat(n)
+			}
+			tg := make([]string, len(targets))
+			for i, o := range targets {
+				if o < 0 {
+					tg[i] = "None"
+				} else {
+					tg[i] = fmt.Sprintf("(Some %d)", o)
+				}
+			}
+			bs := make([]string, len(beh))
+			for i, b := range beh {
+				if b.Kind == "Abort" {
+					bs[i] = fmt.Sprintf("(GiveUp %d)", b.K)
+				} else {
+					bs[i] = b.Kind
+				}
+			}
+			term := fmt.Sprintf("(mkKCase %s %s %s %s %s %s)", vh.List(ls), vh.List(tg), vh.List(bs), vh.Bool(finished), vh.List(ms), vh.List(recvs))
+			rk.Count("kind=" + kind)
+			rk.Count(fmt.Sprintf("chunks=%d", len(lens)))
+			rk.Count(fmt.Sprintf("finished=%v", finished))
+			rk.Add(term, map[string]any{"kind": kind, "chunk_lengths": lens, "targets": targets, "behaviours": beh, "finished": finished, "messages": msgs},
+				map[string]any{"stream": "clientchunks", "chunks": len(lens)}, len(lens) > 1)
+			if !finished {
+				fresh()
+			}
+		}
+		kc := []struct {
+			lens    []int
+			targets []int
+			beh     []behaviour
+		}{
+			{[]int{1000, 1000, 500}, []int{0, 1}, all},               // 2500 bytes in chunks below the core's chunk size
+			{[]int{1, 1, 1}, []int{0}, all},                          //
+			{[]int{2048, 100, 2048, 7}, []int{2, 0}, all},            // short chunk in the middle
+			{[]int{5000}, []int{1}, all},                             // one chunk larger than the core's chunk size
+			{[]int{300, 4096, 300}, []int{0, 1, 2}, all},             //
+			{[]int{700, 700, 700, 700}, []int{0, 1}, []behaviour{AB(1000), D, D}},
+			{[]int{10, 20}, []int{0, -1}, all},
+		}
+		for _, c := range kc {
+			runClient("corpus", c.lens, c.targets, c.beh)
+		}
+		nk := rk.N(12, 200)
+		for i := 0; i < nk; i++ {
+			var lens []int
+			for k := 0; k < 1+rng.Intn(8); k++ {
+				switch rng.Intn(4) {
+				case 0:
+					lens = append(lens, chunkSize)
+				case 1:
+					lens = append(lens, 1+rng.Intn(64))
+				default:
+					lens = append(lens, 1+rng.Intn(3000))
+				}
+			}
+			perm := rng.Perm(3)
+			var targets []int
+			for k := 0; k < 1+rng.Intn(3); k++ {
+				targets = append(targets, perm[k])
+			}
+			beh := []behaviour{D, D, D}
+			if rng.Intn(4) == 0 {
+				beh[targets[0]] = AB(rng.Intn(2000))
+			}
+			runClient("random", lens, targets, beh)
+		}
+		rk.Finish("the chunks of ONE file cut by the client (1-8 chunks of the core's chunk size, 1-64 bytes or 1-3000 bytes each; corpus: 1000+1000+500, 1+1+1, a short chunk in the middle, one oversized chunk, aborting engine, missing target) put on the SendLargeFile input channel as rpc.SendLargeFile would; non-trivial = more than one chunk")
+	}
+
 	// ---- stream "multifile": several files on ONE SendLargeFile input channel ----
 	{
 		rm := vh.New(t, "C29", "multifile")
